@@ -258,7 +258,15 @@ pub fn gen_curve_obj(r: &mut Rng) -> CurveObj {
     spec.index_base = ib;
     let id = hostile_name(r, 3);
     spec.id = id.clone();
-    let curve = VerifCurve::new(m, rule_name, [ADOrder::Zero, ADOrder::One, ADOrder::Two][order], &id, conv, md, cal, ib).expect("curve construction");
+    let mut curve = VerifCurve::new(m, rule_name, [ADOrder::Zero, ADOrder::One, ADOrder::Two][order], &id, conv, md, cal, ib).expect("curve construction");
+    // some curves have lived before being saved: a few derivative-order switches
+    let mut order = order;
+    if r.chance(0.4) {
+        for _ in 0..1 + r.usize(3) {
+            order = r.usize(3);
+            curve.set_ad_order([ADOrder::Zero, ADOrder::One, ADOrder::Two][order]);
+        }
+    }
     CurveObj { curve, spec, order, rule: rule_name.to_string() }
 }
 
